@@ -197,6 +197,8 @@ def run(ctx):
     resulthistory.replay(ctx, ["symeig:exact", "symeig:davidson", "svd"], "eig")
     from vlib import layoutinv
     layoutinv.replay(ctx, ["symeig:exact", "symeig:davidson", "svd"], "eig")
+    from vlib import bufferreuse
+    bufferreuse.replay(ctx, ["linop-instance:symeig", "symeig:davidson"], "eig")
     c2 = dict(base)
     c2["KeepBest"] = False
     t, cf = tlcmod.gen_mc(ctx.work, "Davidson", "MC_Dav_dev", c2, invariants=["ReturnsBest"])
